@@ -1,4 +1,5 @@
-(* C10, first sentence: "... THE MEDIUM MOUNTS".  Part 1 of 2 (assembly in PrCrashMount2.v).
+(* C10, first sentence: "... THE MEDIUM MOUNTS".  Part 1 (assembly: PrCrashMount2.v, examples:
+   PrCrashMount3.v).
    The mount path of a FAT32 volume reads, beside block 0 and the boot sector (which no call
    writes: PrCrashDef6.crash_region_history), the INFORMATION SECTOR and refuses the volume unless
    three signature words are in place.  Here: the signatures are an invariant of every device
